@@ -165,4 +165,13 @@ def build(app):
         write_some(app, m, 200)
         return data
 
+    @app.route('/json/<m>', method='POST')
+    def json_in(m):
+        note('arg', m)
+        read_all(app, 'r1')
+        data = app.request.json
+        note('json', data)
+        write_some(app, m, 200)
+        return 'json-' + m
+
     return app
